@@ -8,6 +8,7 @@ import (
 
 	"pgregory.net/rapid"
 
+	"github.com/bytom/bytom/database"
 	"github.com/bytom/bytom/protocol/state"
 
 	ck "verifharness/chainkit"
@@ -197,6 +198,13 @@ func c19Exec(c c19Case, x *pbt.Ctx) error {
 		db.Log = nil
 		db.Disarm()
 		where := fmt.Sprintf("crash after write %d of %d (%d belong to genesis initialisation); last writes: %v", k, total, base, tail(log, k, 4))
+		// what the stored chain status says before the node starts again
+		statusBest := 0
+		if st := database.NewStore(db).GetStoreStatus(); st != nil && st.Hash != nil {
+			if i, ok := w.ByHash[*st.Hash]; ok {
+				statusBest = i
+			}
+		}
 		// (1) restart
 		if err := h.n.Restart(); err != nil {
 			return fmt.Errorf("%s: restart fails: %v", where, err)
@@ -236,9 +244,32 @@ func c19Exec(c c19Case, x *pbt.Ctx) error {
 			hx := &hist{w: w, n: n}
 			// (only if every checkpoint record belongs to a stored block: justification or finality taken
 			// from a block the node does not have is no state of a crash-free node, see the known finding)
-			if fin, ferr := hx.finalizedIdx(); ferr == nil && finSeen[fin] && checkpointRecordWithoutBlock(n, nOrig) < 0 && best == forkChoice(w, stored, fin, hx.nodeJustified) {
-				okBest = true
-				x.Class("restart-best-is-fork-choice-over-stored-blocks")
+			if fin, ferr := hx.finalizedIdx(); ferr == nil && finSeen[fin] && checkpointRecordWithoutBlock(n, nOrig) < 0 {
+				fc := forkChoice(w, stored, fin, hx.nodeJustified)
+				// what the finality engine can know at start-up: the stored checkpoint blocks with their
+				// ancestors, and the chain the stored status points at (the checkpoint of a running epoch
+				// is kept in memory only and is not rebuilt from the stored blocks)
+				visible := map[int]bool{0: true}
+				for i := range stored {
+					if w.Blocks[i].Block.Height%w.P.Epoch == 0 || i == statusBest {
+						for k := i; k != 0; k = w.Blocks[k].Parent {
+							visible[k] = true
+						}
+					}
+				}
+				switch {
+				case best == fc:
+					okBest = true
+					x.Class("restart-best-is-fork-choice-over-stored-blocks")
+				case stored[fc] && !visible[fc] && best == forkChoice(w, visible, fin, hx.nodeJustified):
+					// known finding (same cause as after re-delivery below): the winner among the stored
+					// blocks lies in a running epoch, which start-up does not look at
+					okBest = true
+					x.Known("winner-stored-before-crash-not-adopted")
+					x.Class("restart-ignores-stored-blocks-of-the-running-epoch")
+				default:
+					where += fmt.Sprintf(" [stored connected blocks %v: fork choice over them is #%d]", keys(stored), fc)
+				}
 			}
 		}
 		if !okBest {
